@@ -1085,6 +1085,17 @@ def make_leafref(leaf, tgt, text, route):
     leaf.lref, leaf.lref_target, leaf.lref_route = text, tgt, route
 
 
+def has_implicit(n):
+    """does validation create the node by itself: leaf with a default, leaf-list with defaults, non-presence container with such below"""
+    if n.kind == "leaf":
+        return n.dflt is not None
+    if n.kind == "leaflist":
+        return bool(n.dflts)
+    if n.np_cont():
+        return any(has_implicit(k) or (k.kind in ("choice", "case") and any(has_implicit(x) for x in k.data_kids())) for k in n.kids)
+    return False
+
+
 def decorate_xpath(rng, s, nmust=2, nlref=1, nwhen=0):
     """put `nlref` leafrefs, `nmust` must statements (and `nwhen` when statements) on nodes of the finished schema `s`.
     Leafrefs: an existing plain leaf (no key, no default, no unique target) becomes a leafref to a configuration-compatible leaf or key
@@ -1127,9 +1138,37 @@ def decorate_xpath(rng, s, nmust=2, nlref=1, nwhen=0):
         text, deps = g.gen(ctx, depth=rng.choice([0, 1, 1, 2]))
         ctx.musts = getattr(ctx, "musts", []) + [text]
         ctx.must_deps = getattr(ctx, "must_deps", []) + [deps]
+    # one node of every schema carries 2-3 musts (statement order = order of the `must` lines): the FIRST holds whenever the node exists, the
+    # LAST is a comparison with a sibling leaf the generator controls (break-must / last-must-false set that leaf to the literal), so that
+    # "a later must fails while the first holds" is frequent
+    def controlled(n):
+        return [k for k in s.data_kids(n.data_parent()) if k is not n and k.kind == "leaf" and not k.iskey and k.ty.name != "empty"
+                and safe_literals(k) and (k.config or not n.config) and not getattr(k, "when", None) and not getattr(k, "lref", None)]
+    multi = [n for n in ctxs if controlled(n)]
+    if multi and nmust:
+        have = [n for n in multi if getattr(n, "musts", None)]
+        ctx = rng.choice(have) if have and rng.random() < 0.6 else rng.choice(multi)
+        k = rng.choice(controlled(ctx))
+        v = rng.choice(safe_literals(k))
+        X = g.X
+        P = g.path(ctx, k, preds=False)
+        last = X.bop("ne", P, g.lit(k, v))
+        if rng.random() < 0.3:
+            last = X.fn("not", X.bop("eq", P, g.lit(k, v)))
+        first = rng.choice(["boolean(.)", "count(..) = 1", "count(.) = 1", "not(false())", "true()"] + ([". = ."] if ctx.is_term() else []))
+        mid = list(zip(getattr(ctx, "musts", []), getattr(ctx, "must_deps", [])))[:1]
+        ctx.musts = [first] + [m for m, _ in mid] + [X.render(last)]
+        ctx.must_deps = [[]] + [d for _, d in mid] + [[(k, v)]]
+        ctx.must_last = (k, v)
     for _ in range(nwhen):
         cand = [n for n in s.nodes if n.is_data() and not n.iskey and not getattr(n, "when", None) and not getattr(n, "mandatory", False)
-                and not (n.kind in ("list", "leaflist") and n.min) and id(n) not in uniq]
+                and not (n.kind in ("list", "leaflist") and n.min) and id(n) not in uniq and not getattr(n, "lref", None)
+                and id(n) not in used]
+        # carriers that validation creates by itself: leaf with a default, leaf-list with defaults, non-presence container with default
+        # descendants -> created with LYD_WHEN_TRUE while the condition holds, created and auto-deleted while it does not
+        dfl = [n for n in cand if has_implicit(n)]
+        if dfl and rng.random() < 0.6:
+            cand = dfl
         if cand:
             ctx = rng.choice(cand)
             # the context node of a when is the node itself (may not exist): look at siblings / ancestors only
@@ -1152,7 +1191,7 @@ def fam_xpath(rng, idx, nwhen=0):
     lv, lw = sl(), b.leaf(dflt=rng.random() < 0.4, noempty=True)
     l1 = b.lst(b.mixed([lv, lw]), hi=rng.choice([0, 0, 4]))
     inner = b.np(b.mixed([sl(), b.leaf(dflt=rng.random() < 0.5, noempty=True), sl()]))
-    ckids = [sl(), sl(), b.leaf(dflt=True), b.ll(), l1, inner, sl()] + ([b.leaf(mand=True)] if rng.random() < 0.3 else [])
+    ckids = [sl(), sl(), b.leaf(dflt=True), b.ll(ndflt=rng.choice([0, 0, 1, 2])), l1, inner, sl()] + ([b.leaf(mand=True)] if rng.random() < 0.3 else [])
     c = (b.pc if rng.random() < 0.6 else b.np)(b.mixed(ckids))
     top = [c, b.lst(b.mixed([sl(), sl(), sl()])), sl()]
     s = b.finish("xpath", idx, b.mixed(top))
@@ -1160,7 +1199,10 @@ def fam_xpath(rng, idx, nwhen=0):
 
 
 FAMILY_PREFIX["xpath"] = "xq"
-XP_MUTATIONS = ["break-must", "break-leafref", "flip-when"]
+# the last two are directed instances rather than mutations: the sibling leaf the last must of the multi-must node compares is set to
+# the literal (the first must holds, the last fails); the explicit instances of a when-carrier with defaults are removed (validation creates
+# the carrier itself: with LYD_WHEN_TRUE, or creates and auto-deletes it)
+XP_MUTATIONS = ["break-must", "break-leafref", "flip-when", "last-must-false", "when-implicit"]
 
 
 def xp_counts(s):
@@ -1661,6 +1703,11 @@ class Mutator:
         entry of a counted (leaf-)list"""
         deps = [(n, d) for n in self.s.nodes for ds in getattr(n, "must_deps", []) for d in ds]
         self.rng.shuffle(deps)
+        if self.rng.random() < 0.6:
+            # the LAST must of the node with several musts first
+            r = self.m_last_must_false(f)
+            if r is not None:
+                return r
         for ctx, (tgt, lit) in deps:
             inst = self._instances(f, tgt)
             if tgt.kind == "leaf":
@@ -1709,6 +1756,38 @@ class Mutator:
                 sibs.remove(x)
                 return {"sid": tgt.sid, "how": "delete", "must_on": ctx.sid}
         return None
+
+    def m_last_must_false(self, f):
+        """where the node with several musts exists, the sibling leaf its last must compares gets the literal (created if absent)"""
+        lasts = [n for n in self.s.nodes if getattr(n, "must_last", None)]
+        self.rng.shuffle(lasts)
+        for ctx in lasts:
+            k, v = ctx.must_last
+            places = [(p, sibs) for p, sk, sibs in levels(self.s, f) if any(x.sn is ctx for x in sibs)]
+            if not places:
+                continue
+            p, sibs = self.rng.choice(places)
+            have = [x for x in sibs if x.sn is k]
+            if have and all(x.val == v.encode() for x in have):
+                continue
+            if have:
+                have[0].val = v.encode()
+            else:
+                sibs.append(DN(k, v.encode()))
+                self._recanon(p, sibs)
+            return {"sid": k.sid, "how": "last-must", "must_on": ctx.sid}
+        return None
+
+    def m_when_implicit(self, f):
+        """remove every explicit instance of a when-carrier that validation creates by itself"""
+        car = [n for n in self.s.nodes if getattr(n, "when", None) and has_implicit(n)]
+        done = []
+        for n in car:
+            for p, sibs, x in self._instances(f, n):
+                if x in sibs:
+                    sibs.remove(x)
+                    done.append(n.sid)
+        return {"sids": sorted(set(done)), "how": "carrier-removed"} if done else None
 
     def m_flip_when(self, f):
         """the leaf a when condition compares: set to the literal of the comparison, to another value, or removed"""
